@@ -14,6 +14,9 @@ for d in sorted(os.listdir(os.path.join(V, "seeded")), key=lambda s: (s.split("-
     own = m["breaks_property"]
     others = ["%s:%s" % (c, v["exit"]) for c, v in sorted(m["checks_run"].items()) if v["exit"] != 1]
     rows.append((d, det, others, note[:170].replace("|", "/"), own in det))
+import sys, io
+_out = io.StringIO()
+_real, sys.stdout = sys.stdout, _out
 print("| change | caught by | also run, not caught (exit) | what it is (first line of the author's note) |")
 print("|---|---|---|---|")
 for d, det, others, note, own in rows:
@@ -22,3 +25,13 @@ n = len(rows)
 print()
 print("%d changes; %d caught by the check of their own property, %d only by another property's check, %d by none."
       % (n, sum(1 for r in rows if r[4]), sum(1 for r in rows if r[1] and not r[4]), sum(1 for r in rows if not r[1])))
+sys.stdout = _real
+text = _out.getvalue()
+if "--update-design" in sys.argv:
+    p = os.path.join(V, "DESIGN.md")
+    s = open(p).read()
+    a, b = s.index("<!-- seeded-table:begin -->"), s.index("<!-- seeded-table:end -->")
+    s = s[:a] + "<!-- seeded-table:begin -->\n" + text.rstrip() + "\n" + s[b:]
+    open(p, "w").write(s)
+else:
+    print(text, end="")
